@@ -1961,6 +1961,18 @@ _dispatch_disk_pick_next_operation(dispatch_disk_t disk)
 	return NULL;
 }
 
+DISPATCH_ALWAYS_INLINE
+static inline void
+_dispatch_operation_inherit_fd_error(dispatch_operation_t op)
+{
+	// An operation cleaned up because its descriptor failed (and not because
+	// its channel was stopped) did not succeed: it completes with the error
+	// of the descriptor instead of reporting its remaining data as processed
+	if (!op->err) {
+		op->err = op->fd_entry->err;
+	}
+}
+
 static void
 _dispatch_stream_cleanup_operations(dispatch_stream_t stream,
 		dispatch_io_t channel)
@@ -1971,12 +1983,14 @@ _dispatch_stream_cleanup_operations(dispatch_stream_t stream,
 	operations = &stream->operations[DISPATCH_IO_RANDOM];
 	TAILQ_FOREACH_SAFE(op, operations, operation_list, tmp) {
 		if (!channel || op->channel == channel) {
+			if (!channel) _dispatch_operation_inherit_fd_error(op);
 			_dispatch_stream_complete_operation(stream, op);
 		}
 	}
 	operations = &stream->operations[DISPATCH_IO_STREAM];
 	TAILQ_FOREACH_SAFE(op, operations, operation_list, tmp) {
 		if (!channel || op->channel == channel) {
+			if (!channel) _dispatch_operation_inherit_fd_error(op);
 			_dispatch_stream_complete_operation(stream, op);
 		}
 	}
@@ -1998,6 +2012,7 @@ _dispatch_disk_cleanup_specified_operations(dispatch_disk_t disk,
 	TAILQ_FOREACH_SAFE(op, &disk->operations, operation_list, tmp) {
 		if (inactive_only && op->active) continue;
 		if (channel ? op->channel == channel : op->fd_entry == fd_entry) {
+			if (!channel) _dispatch_operation_inherit_fd_error(op);
 			_dispatch_op_debug("cleanup: disk %p", op, disk);
 			_dispatch_disk_complete_operation(disk, op);
 		}
